@@ -53,9 +53,9 @@ Section Generic.
 
   (* the list of rows before trim / sort / max_number depends on y, influences and
      intermediate only *)
-  Lemma gather_options_irrelevant cb s ncx y (o o' : opts N) :
+  Lemma gather_options_irrelevant s ncx y (o o' : opts N) :
     o_infl o = o_infl o' -> o_interm o = o_interm o' ->
-    gather N cb s ncx y o = gather N cb s ncx y o'.
+    gather N s ncx y o = gather N s ncx y o'.
   Proof.
     intros Hi Hm. unfold gather, gather_real, gather_complex. rewrite Hi, Hm. reflexivity.
   Qed.
@@ -64,10 +64,10 @@ Section Generic.
   Theorem budget_filters_and_orders s ncx y (o : opts N) out :
     budget N s ncx y o = Ok out ->
     exists rows p n srt,
-      gather N false s ncx y o = Ok rows /\
+      gather N s ncx y o = Ok rows /\
       Permutation srt (filter p rows) /\ out = firstn n srt.
   Proof.
-    unfold budget. destruct (gather N false s ncx y o) as [rows|e]; [|discriminate]. cbn [bind].
+    unfold budget. destruct (gather N s ncx y o) as [rows|e]; [|discriminate]. cbn [bind].
     destruct (sort_rows N (o_key o) (o_rev o) (trim_rows N (o_trim o) rows)) as [srt|e] eqn:Es; [|discriminate].
     cbn [bind]. intros H; injection H as <-.
     destruct (trim_rows_filter (o_trim o) rows) as [p Hp].
@@ -86,10 +86,10 @@ Section Generic.
   Theorem components_filters_and_orders s ncx y (o : opts N) out :
     components N s ncx y o = Ok out ->
     exists rows p n srt,
-      gather N true s ncx y o = Ok rows /\
+      gather N s ncx y o = Ok rows /\
       Permutation srt (filter p (map (unlabel N) rows)) /\ out = firstn n srt.
   Proof.
-    unfold components. destruct (gather N true s ncx y o) as [rows|e]; [|discriminate]. cbn [bind].
+    unfold components. destruct (gather N s ncx y o) as [rows|e]; [|discriminate]. cbn [bind].
     intros H; injection H as <-.
     destruct (trim_rows_filter (o_trim o) (map (unlabel N) rows)) as [p Hp].
     destruct (cut_rows_prefix (o_max o) (isort N (before_u N true) (trim_rows N (o_trim o) (map (unlabel N) rows)))) as [n Hn].
@@ -186,7 +186,7 @@ Qed.
 Theorem budget_default_sorted s ncx y (o : opts RNum) out :
   o_key o = Some KU -> o_rev o = true -> budget RNum s ncx y o = Ok out -> StronglySorted desc out.
 Proof.
-  intros Hk Hr. unfold budget. destruct (gather RNum false s ncx y o) as [rows|e]; [|discriminate]. cbn [bind].
+  intros Hk Hr. unfold budget. destruct (gather RNum s ncx y o) as [rows|e]; [|discriminate]. cbn [bind].
   rewrite Hk, Hr. cbn [sort_rows bind]. intros H; injection H as <-.
   destruct (cut_rows_prefix RNum (o_max o) (isort RNum (before_u RNum true) (trim_rows RNum (o_trim o) rows))) as [n ->].
   apply firstn_sorted, isort_desc.
@@ -195,7 +195,7 @@ Qed.
 Theorem budget_ascending_sorted s ncx y (o : opts RNum) out :
   o_key o = Some KU -> o_rev o = false -> budget RNum s ncx y o = Ok out -> StronglySorted asc out.
 Proof.
-  intros Hk Hr. unfold budget. destruct (gather RNum false s ncx y o) as [rows|e]; [|discriminate]. cbn [bind].
+  intros Hk Hr. unfold budget. destruct (gather RNum s ncx y o) as [rows|e]; [|discriminate]. cbn [bind].
   rewrite Hk, Hr. cbn [sort_rows bind]. intros H; injection H as <-.
   destruct (cut_rows_prefix RNum (o_max o) (isort RNum (before_u RNum false) (trim_rows RNum (o_trim o) rows))) as [n ->].
   apply firstn_sorted, isort_asc.
@@ -204,7 +204,7 @@ Qed.
 Theorem components_sorted s ncx y (o : opts RNum) out :
   components RNum s ncx y o = Ok out -> StronglySorted desc out.
 Proof.
-  unfold components. destruct (gather RNum true s ncx y o) as [rows|e]; [|discriminate]. cbn [bind].
+  unfold components. destruct (gather RNum s ncx y o) as [rows|e]; [|discriminate]. cbn [bind].
   intros H; injection H as <-.
   destruct (cut_rows_prefix RNum (o_max o) (isort RNum (before_u RNum true) (trim_rows RNum (o_trim o) (map (unlabel RNum) rows)))) as [n ->].
   apply firstn_sorted, isort_desc.
@@ -377,15 +377,15 @@ Proof.
     rewrite El in El'. injection El' as <-. congruence.
 Qed.
 
-Lemma gather_real_default_eq cb s ncx (y : ureal) t m k rv :
-  gather RNum cb s ncx (@YReal RNum y) (default_opts t m k rv) =
+Lemma gather_real_default_eq s ncx (y : ureal) t m k rv :
+  gather RNum s ncx (@YReal RNum y) (default_opts t m k rv) =
   (a <- rows_leaves RNum s (uc y) ;; b <- rows_leaves RNum s (dc y) ;; Ok (a ++ b)).
 Proof. reflexivity. Qed.
 
 (* gather: one row per influence key, in vector order *)
 Theorem gather_real_default s y t m k rv :
   wf_real s y ->
-  exists rows, gather RNum false s [] (@YReal RNum y) (default_opts t m k rv) = Ok rows /\
+  exists rows, gather RNum s [] (@YReal RNum y) (default_opts t m k rv) = Ok rows /\
                Forall2 (row_is s y) rows (infl_keys y).
 Proof.
   intros W. destruct W as [Su Sd Lu Ld].
@@ -453,7 +453,7 @@ Proof.
   intros W Hb. pose proof (components_sorted _ _ _ _ _ Hb) as Hs.
   destruct (gather_real_default s y 0 None k rv W) as (rows & Eg & Hf).
   unfold components in Hb.
-  assert (Eg' : gather RNum true s [] (@YReal RNum y) (default_opts 0 None k rv) = Ok rows) by exact Eg.
+  assert (Eg' : gather RNum s [] (@YReal RNum y) (default_opts 0 None k rv) = Ok rows) by exact Eg.
   rewrite Eg' in Hb. cbn [bind default_opts o_trim o_max cut_rows] in Hb. injection Hb as <-.
   assert (Hf' : Forall2 (row_is s y) (map (unlabel RNum) rows) (infl_keys y)).
   { clear -Hf. induction Hf; simpl; constructor; auto. }
@@ -698,7 +698,7 @@ Inductive crows_fg (s : state) (f g : key -> R) : list key -> list rrow -> Prop 
 Lemma ploop_paired s f g K :
   paired s K ->
   exists rows,
-    ploop RNum (acc_leaf RNum s) (fun _ _ => false) false
+    ploop RNum (acc_leaf RNum s) (fun _ _ => false)
           (map (fun k => (k, f k)) K) (map (fun k => (k, g k)) K) = Ok rows /\
     crows_fg s f g K rows.
 Proof.
@@ -714,48 +714,82 @@ Proof.
     eexists. split; [reflexivity|]. eapply cr_cplx; [exact El | exact Ec | reflexivity | reflexivity | exact Hc].
 Qed.
 
-(* the rows of the complex budget, stated with the INDEPENDENT component vectors -- which is
-   what the code uses: extend_vector(u, d) keeps the values of u and zero-fills the keys of d *)
+(* the component of uncertainty of a part of y for the leaf k, read off its two component
+   vectors: the key sets of uc and dc are disjoint, so one of the two terms is 0 *)
+Definition cval (y : ureal) (k : key) : R := vget RNum (uc y) k + vget RNum (dc y) k.
+
+Lemma vget_absent (v : rvec) k : ~ In k (keys (N:=RNum) v) -> vget RNum v k = 0.
+Proof. intros H. unfold vget. rewrite (get_none_notin RNum v k H). reflexivity. Qed.
+
+(* ... and it IS Kernel.u_component, for independent and for dependent leaves alike *)
+Lemma cval_is_u_component s (y x : ureal) k l :
+  wf_real s y -> unode x = LeafRef k -> leaf_of RNum s k = Ok l ->
+  u_component RNum s y x = Ok (cval y k).
+Proof.
+  intros [_ _ Lu Ld] Hx El. unfold u_component, cval. change (T RNum) with R in *. rewrite Hx, El. cbn [bind].
+  destruct (l_indep l) eqn:Ei.
+  - rewrite (vget_absent (dc y) k); [f_equal; symmetry; apply Rplus_0_r|].
+    intros Hin. destruct (Ld k Hin) as (l' & El' & Ei'). change (T RNum) with R in *. rewrite El in El'. injection El' as <-. rewrite Ei in Ei'. discriminate.
+  - rewrite (vget_absent (uc y) k); [f_equal; symmetry; apply Rplus_0_l|].
+    intros Hin. destruct (Lu k Hin) as (l' & El' & Ei'). change (T RNum) with R in *. rewrite El in El'. injection El' as <-. rewrite Ei in Ei'. discriminate.
+Qed.
+
+(* the rows of the complex budget: u_bar of the block of components of uncertainty *)
 Definition crows (s : state) (yre yim : ureal) : list key -> list rrow -> Prop :=
-  crows_fg s (vget RNum (uc yre)) (vget RNum (uc yim)).
+  crows_fg s (cval yre) (cval yim).
+
+Lemma merged_sorted (y : ureal) :
+  sorted (N:=RNum) (uc y) -> sorted (N:=RNum) (dc y) -> sorted (N:=RNum) (merge (N:=RNum) (uc y) (dc y)).
+Proof. apply sorted_merge. Qed.
 
 Lemma ext_re_sorted (yre yim : ureal) :
   sorted (N:=RNum) (uc yre) -> sorted (N:=RNum) (dc yre) -> sorted (N:=RNum) (uc yim) -> sorted (N:=RNum) (dc yim) ->
   sorted (N:=RNum) (ext_re RNum yre yim).
-Proof. intros. unfold ext_re, extend. repeat apply sorted_merge_w; assumption. Qed.
+Proof. intros. unfold ext_re, extend. repeat apply sorted_merge_w; try assumption. apply sorted_merge; assumption. Qed.
 
 Lemma ext_im_sorted (yre yim : ureal) :
   sorted (N:=RNum) (uc yre) -> sorted (N:=RNum) (dc yre) -> sorted (N:=RNum) (uc yim) -> sorted (N:=RNum) (dc yim) ->
   sorted (N:=RNum) (ext_im RNum yre yim).
-Proof. intros. unfold ext_im, extend. repeat apply sorted_merge_w; assumption. Qed.
+Proof. intros. unfold ext_im, extend. repeat apply sorted_merge_w; try assumption. apply sorted_merge; assumption. Qed.
+
+Lemma keys_merge (v1 v2 : rvec) k :
+  In k (keys (N:=RNum) (merge (N:=RNum) v1 v2)) <-> In k (keys (N:=RNum) v1) \/ In k (keys (N:=RNum) v2).
+Proof. apply keys_mloop. Qed.
+
+Lemma ext_re_keys (yre yim : ureal) k :
+  In k (keys (N:=RNum) (ext_re RNum yre yim)) <->
+  (In k (keys (N:=RNum) (uc yre)) \/ In k (keys (N:=RNum) (dc yre))) \/ In k (keys (N:=RNum) (uc yim)) \/ In k (keys (N:=RNum) (dc yim)).
+Proof. unfold ext_re, extend. rewrite !keys_merge_w, keys_merge. tauto. Qed.
 
 Lemma ext_keys (yre yim : ureal) k :
   In k (keys (N:=RNum) (ext_re RNum yre yim)) <-> In k (keys (N:=RNum) (ext_im RNum yre yim)).
-Proof. unfold ext_re, ext_im, extend. rewrite !keys_merge_w. tauto. Qed.
+Proof. unfold ext_re, ext_im, extend. rewrite !keys_merge_w, !keys_merge. tauto. Qed.
 
 Lemma ext_re_get (yre yim : ureal) k :
   sorted (N:=RNum) (uc yre) -> sorted (N:=RNum) (dc yre) -> sorted (N:=RNum) (uc yim) -> sorted (N:=RNum) (dc yim) ->
-  get0 (N:=RNum) (ext_re RNum yre yim) k = vget RNum (uc yre) k.
+  get0 (N:=RNum) (ext_re RNum yre yim) k = cval yre k.
 Proof.
-  intros S1 S2 S3 S4. unfold ext_re. rewrite !get0_extend; try assumption; try reflexivity;
-    unfold extend; repeat apply sorted_merge_w; assumption.
+  intros S1 S2 S3 S4. pose proof (sorted_merge _ _ S1 S2) as SM. unfold ext_re.
+  rewrite get0_extend; [| unfold extend; apply sorted_merge_w; assumption | assumption].
+  rewrite get0_extend by assumption. rewrite get0_merge by assumption. reflexivity.
 Qed.
 
 Lemma ext_im_get (yre yim : ureal) k :
   sorted (N:=RNum) (uc yre) -> sorted (N:=RNum) (dc yre) -> sorted (N:=RNum) (uc yim) -> sorted (N:=RNum) (dc yim) ->
-  get0 (N:=RNum) (ext_im RNum yre yim) k = vget RNum (uc yim) k.
+  get0 (N:=RNum) (ext_im RNum yre yim) k = cval yim k.
 Proof.
-  intros S1 S2 S3 S4. unfold ext_im. rewrite !get0_extend; try assumption; try reflexivity;
-    unfold extend; repeat apply sorted_merge_w; assumption.
+  intros S1 S2 S3 S4. pose proof (sorted_merge _ _ S3 S4) as SM. unfold ext_im.
+  rewrite get0_extend; [| unfold extend; apply sorted_merge_w; assumption | assumption].
+  rewrite get0_extend by assumption. rewrite get0_merge by assumption. reflexivity.
 Qed.
 
 (* C17 (complex): under the pairing invariant the default complex budget has one row per real
-   influence and one row per complex influence, with u_bar of the 2x2 (resp. 2x1) block of
-   components taken from the independent vectors *)
+   influence and one row per complex influence, with u_bar of the 2x1 (resp. 2x2) block of
+   components of uncertainty -- independent and dependent influences alike *)
 Theorem complex_budget_paired s ncx (yre yim : ureal) t m k rv :
   wf_real s yre -> wf_real s yim ->
   paired s (keys (N:=RNum) (ext_re RNum yre yim)) ->
-  exists rows, gather RNum false s ncx (@YComplex RNum yre yim) (default_opts t m k rv) = Ok rows /\
+  exists rows, gather RNum s ncx (@YComplex RNum yre yim) (default_opts t m k rv) = Ok rows /\
                crows s yre yim (keys (N:=RNum) (ext_re RNum yre yim)) rows.
 Proof.
   intros [S1 S2 _ _] [S3 S4 _ _] HP.
@@ -763,40 +797,45 @@ Proof.
   pose proof (ext_im_sorted yre yim S1 S2 S3 S4) as SI.
   assert (EK : keys (N:=RNum) (ext_im RNum yre yim) = keys (N:=RNum) (ext_re RNum yre yim)).
   { apply sorted_keys_unique; [exact SI | exact SR | intros k0; symmetry; apply ext_keys]. }
-  destruct (ploop_paired s (vget RNum (uc yre)) (vget RNum (uc yim)) _ HP) as (rows & Er & Hc).
+  destruct (ploop_paired s (cval yre) (cval yim) _ HP) as (rows & Er & Hc).
   exists rows. split; [|exact Hc].
   unfold gather, default_opts. cbn [o_interm o_infl andb gather_complex].
   rewrite (sorted_as_map _ SR) at 1. rewrite (sorted_as_map _ SI) at 1. rewrite EK.
-  rewrite (map_ext _ (fun k0 => (k0, vget RNum (uc yre) k0)))
+  rewrite (map_ext _ (fun k0 => (k0, cval yre k0)))
     by (intros k0; rewrite ext_re_get by assumption; reflexivity).
-  rewrite (map_ext (fun k0 => (k0, get0 (N:=RNum) (ext_im RNum yre yim) k0)) (fun k0 => (k0, vget RNum (uc yim) k0)))
+  rewrite (map_ext (fun k0 => (k0, get0 (N:=RNum) (ext_im RNum yre yim) k0)) (fun k0 => (k0, cval yim k0)))
     by (intros k0; rewrite ext_im_get by assumption; reflexivity).
   exact Er.
 Qed.
 
-(* for an independent leaf the value in the independent vector IS the component of uncertainty,
-   so under "all influences independent" the rows above are u_bar(u_component(y, influence)) as
-   UncertainComplex.u_component defines it *)
-Lemma ucomp_c_real_indep s (yre yim x : ureal) k l :
-  unode x = LeafRef k -> leaf_of RNum s k = Ok l -> l_indep l = true ->
-  ucomp_c RNum s yre yim (@IReal RNum x) = Ok (vget RNum (uc yre) k, 0, vget RNum (uc yim) k, 0).
+(* the block of components in a row is exactly what UncertainComplex.u_component returns for the
+   influence, so the row is u_bar(u_component(y, influence)) -- no restriction to independent
+   influences any more *)
+Lemma ucomp_c_real s (yre yim x : ureal) k l :
+  wf_real s yre -> wf_real s yim ->
+  unode x = LeafRef k -> leaf_of RNum s k = Ok l ->
+  ucomp_c RNum s yre yim (@IReal RNum x) = Ok (cval yre k, 0, cval yim k, 0).
 Proof.
-  intros Hx El Ei. unfold ucomp_c, is_elem, is_elementary, u_component. change (T RNum) with R in *.
-  rewrite Hx. cbn [orb]. rewrite El. cbn [bind]. rewrite Ei. reflexivity.
+  intros W1 W2 Hx El. unfold ucomp_c, is_elem, is_elementary. change (T RNum) with R in *. rewrite Hx. cbn [orb].
+  rewrite (cval_is_u_component s yre x k l W1 Hx El), (cval_is_u_component s yim x k l W2 Hx El). reflexivity.
 Qed.
 
-Lemma ucomp_c_complex_indep s (yre yim xr xi : ureal) lb a b la lb' :
+Lemma ucomp_c_complex s (yre yim xr xi : ureal) lb a b la lb' :
+  wf_real s yre -> wf_real s yim ->
   unode xr = LeafRef a -> unode xi = LeafRef b ->
-  leaf_of RNum s a = Ok la -> l_indep la = true -> leaf_of RNum s b = Ok lb' -> l_indep lb' = true ->
+  leaf_of RNum s a = Ok la -> leaf_of RNum s b = Ok lb' ->
   ucomp_c RNum s yre yim (@IComplex RNum xr xi lb) =
-  Ok (vget RNum (uc yre) a, vget RNum (uc yre) b, vget RNum (uc yim) a, vget RNum (uc yim) b).
+  Ok (cval yre a, cval yre b, cval yim a, cval yim b).
 Proof.
-  intros Hr Hi Ea Ia Eb Ib. unfold ucomp_c, is_elem, is_elementary, u_component. change (T RNum) with R in *.
-  rewrite Hr, Hi. cbn [andb orb]. rewrite Ea, Eb. cbn [bind]. rewrite Ia, Ib. reflexivity.
+  intros W1 W2 Hr Hi Ea Eb. unfold ucomp_c, is_elem, is_elementary. change (T RNum) with R in *.
+  rewrite Hr, Hi. cbn [andb orb].
+  rewrite (cval_is_u_component s yre xr a la W1 Hr Ea), (cval_is_u_component s yre xi b lb' W1 Hi Eb),
+          (cval_is_u_component s yim xr a la W2 Hr Ea), (cval_is_u_component s yim xi b lb' W2 Hi Eb). reflexivity.
 Qed.
 
 (* ====================================================================================== *)
-(* Part 4: what is false of the faithful model (known findings)                           *)
+(* Part 4: what is false of the faithful model (known findings), and the witnesses of the *)
+(* two repaired defects, which now satisfy the property                                    *)
 (* ====================================================================================== *)
 Definition k1 : key := (1%Z, 1%Z).
 Definition k2 : key := (1%Z, 2%Z).
@@ -845,7 +884,7 @@ Proof.
   split; [apply comp_indep; [apply wf_yre_p | apply wf_yre_p | right; left; reflexivity]|].
   split.
   - unfold budget, gather, cplx_opts. cbn [o_interm o_infl andb gather_complex o_trim o_key o_rev o_max].
-    unfold ext_re, ext_im, extend, merge_w, yre_p, yim_p. cbn [uc dc].
+    unfold ext_re, ext_im, extend, merge_w, merge, yre_p, yim_p. cbn [uc dc].
     cbn [mloop vmap map fst snd kcmp k1 k3 Z.compare Pos.compare Pos.compare_cont].
     assert (L1 : leaf_of RNum st_zx k1 = Ok (lf true (Some (k1, k2)))) by reflexivity.
     cbn [ploop a_cplx acc_leaf a_label a_uid]. rewrite L1. cbn [bind lf l_cplx l_label].
@@ -881,42 +920,54 @@ Proof.
   repeat split; reflexivity.
 Qed.
 
-(* #15: components(y, intermediate=True) of a complex y that depends on a REAL declared
-   intermediate raises AttributeError, where budget() with the same arguments succeeds *)
+(* #15 (repaired: `ir_0.uid`): components() and budget() build their rows with the same code for
+   every y and every mode, so components() succeeds exactly when budget's rows exist and returns
+   those rows (labels dropped), trimmed, sorted by u, truncated *)
+Theorem components_rows_are_budget_rows (N : Num) s ncx y (o : opts N) rows :
+  gather N s ncx y o = Ok rows ->
+  components N s ncx y o =
+  Ok (cut_rows N (o_max o) (isort N (before_u N true) (trim_rows N (o_trim o) (map (unlabel N) rows)))).
+Proof. intros H. unfold components. rewrite H. reflexivity. Qed.
+
+Theorem components_raises_iff_budget_rows_raise (N : Num) s ncx y (o : opts N) e :
+  components N s ncx y o = Err e <-> gather N s ncx y o = Err e.
+Proof.
+  unfold components. destruct (gather N s ncx y o) as [rows|e']; cbn [bind]; split; intros H; try discriminate; exact H.
+Qed.
+
+(* the former witness: y = (1+2j)*r1 with r1 = result(2*x) a REAL intermediate *)
 Definition n1 : key := (1%Z, 1%Z).
 Definition st_n : state := mkS 1%Z 3%Z 1%Z [(k3, lf true None)] [(n1, mkNode 2 DInf None)] [] [].
-(* y = (1+2j) * r1,  r1 = result(2*x) *)
 Definition yre_n : ureal := mkU 0 [(k3, 2)] [] [(n1, 2)] NoNode.
 Definition yim_n : ureal := mkU 0 [(k3, 4)] [] [(n1, 4)] NoNode.
 Definition interm_opts : opts RNum := @mkOpts RNum None 0 None true None true.
 
-Theorem components_intermediate_real_node_refuted :
-  (exists out, budget RNum st_n [] (@YComplex RNum yre_n yim_n) interm_opts = Ok out /\
-               map r_uid out = [UInterm n1]) /\
-  components RNum st_n [] (@YComplex RNum yre_n yim_n) interm_opts = Err AttributeError.
+Theorem components_intermediate_real_node :
+  exists out, components RNum st_n [] (@YComplex RNum yre_n yim_n) interm_opts = Ok out /\
+              map r_uid out = [UInterm n1] /\ map r_u out = [ubar_R 2 0 4 0].
 Proof.
-  split.
-  - eexists. split.
-    + unfold budget, gather, interm_opts. cbn [o_interm o_infl andb gather_complex o_trim o_key o_rev o_max].
+  assert (Eg : exists r, gather RNum st_n [] (@YComplex RNum yre_n yim_n) interm_opts = Ok [r] /\
+                         r_uid r = UInterm n1 /\ r_u r = ubar_R 2 0 4 0).
+  { eexists. split.
+    - unfold gather, interm_opts. cbn [o_interm o_infl andb gather_complex].
       unfold extend, merge_w, yre_n, yim_n. cbn [ic node_key unode].
       cbn [mloop vmap map fst snd kcmp n1 Z.compare Pos.compare Pos.compare_cont].
       assert (L1 : node_of RNum st_n n1 = Ok (mkNode 2 DInf None)) by reflexivity.
       cbn [ploop a_cplx acc_node a_label a_uid assoc bind]. rewrite u_bar4_R. cbn [bind]. rewrite L1.
-      cbn [bind n_label sort_rows cut_rows].
-      rewrite trim_zero_all by (intros r [<-|[]]; apply ubar_R_nonneg). reflexivity.
-    + reflexivity.
-  - unfold components, gather, interm_opts. cbn [o_interm o_infl andb gather_complex].
-    unfold extend, merge_w, yre_n, yim_n. cbn [ic node_key unode].
-    cbn [mloop vmap map fst snd kcmp n1 Z.compare Pos.compare Pos.compare_cont].
-    assert (L1 : node_of RNum st_n n1 = Ok (mkNode 2 DInf None)) by reflexivity.
-    cbn [ploop a_cplx acc_node a_label a_uid assoc bind]. rewrite u_bar4_R. cbn [bind]. rewrite L1.
-    reflexivity.
+      cbn [bind n_label]. reflexivity.
+    - cbn [r_uid r_u acc_node a_uid]. split; [reflexivity|].
+      unfold ubar_R. f_equal. cbn [mul add of_Z RNum]. unfold Kernel.zero. cbn [of_Z RNum]. field. }
+  destruct Eg as (r & Eg & Hu & Hv).
+  eexists. split.
+  - rewrite (components_rows_are_budget_rows RNum _ _ _ _ _ Eg).
+    cbn [interm_opts o_trim o_max cut_rows map].
+    rewrite trim_zero_all by (intros r' [<-|[]]; cbn [unlabel r_u]; rewrite Hv; apply ubar_R_nonneg). reflexivity.
+  - cbn [isort fold_right insert map unlabel r_uid r_u]. rewrite Hu, Hv. split; reflexivity.
 Qed.
 
-(* #28 (new): a DEPENDENT influence (declared independent=False, a correlated ucomplex, an
-   ensemble member) gets u = 0 in the default complex budget: extend_vector(u, d) zero-fills the
-   keys of the dependent vector instead of keeping their values.  y = (1+1j)*x, x dependent:
-   u_component is 1 for both parts, the budget row says 0 *)
+(* former #28 (repaired: merge_vectors(u, d) before extending): a DEPENDENT influence of a complex
+   result is reported with u_bar of its components.  y = (1+1j)*x, x declared independent=False:
+   both components are 1 and the budget row says u_bar = sqrt((1+1)/2) = 1 (it said 0) *)
 Definition st_d : state := mkS 1%Z 3%Z 0%Z [(k3, lf false None)] [] [] [].
 Definition yre_d : ureal := mkU 0 [] [(k3, 1)] [] NoNode.
 Definition yim_d : ureal := mkU 0 [] [(k3, 1)] [] NoNode.
@@ -930,12 +981,12 @@ Proof.
   - intros k [<-|[]]; eexists; split; reflexivity.
 Qed.
 
-Theorem complex_dependent_zero_refuted :
+Theorem complex_dependent_reported :
   exists r,
     wf_real st_d yre_d /\ wf_real st_d yim_d /\
     comp_is st_d yre_d k3 1 /\ comp_is st_d yim_d k3 1 /\
     budget RNum st_d [] (@YComplex RNum yre_d yim_d) cplx_opts = Ok [r] /\
-    r_uid r = UElem k3 /\ r_u r = 0.
+    r_uid r = UElem k3 /\ r_u r = ubar_R 1 0 1 0 /\ r_u r = 1.
 Proof.
   assert (HP : paired st_d (keys (N:=RNum) (ext_re RNum yre_d yim_d))).
   { change (keys (N:=RNum) (ext_re RNum yre_d yim_d)) with [k3].
@@ -944,16 +995,19 @@ Proof.
   change (keys (N:=RNum) (ext_re RNum yre_d yim_d)) with [k3] in Hc.
   inversion Hc as [|k K l r rs El Ec Hu Hv Hrest|a b K l r rs El Ec Hu Hv Hrest]; subst.
   inversion Hrest; subst.
-  assert (Hz : r_u r = 0).
-  { rewrite Hv. unfold ubar_R. change (vget RNum (uc yre_d) k3) with 0. change (vget RNum (uc yim_d) k3) with 0.
-    replace ((0 * 0 + 0 * 0 + 0 * 0 + 0 * 0) / 2) with 0 by field. apply sqrt_0. }
+  assert (Hc1 : cval yre_d k3 = 1).
+  { unfold cval. change (vget RNum (uc yre_d) k3) with 0. change (vget RNum (dc yre_d) k3) with 1. ring. }
+  assert (Hval : r_u r = ubar_R 1 0 1 0).
+  { rewrite Hv. change (cval yim_d k3) with (cval yre_d k3). rewrite Hc1. reflexivity. }
+  assert (H1 : ubar_R 1 0 1 0 = 1).
+  { unfold ubar_R. replace ((1 * 1 + 0 * 0 + 1 * 1 + 0 * 0) / 2) with 1 by field. apply sqrt_1. }
   exists r. split; [exact wf_yre_d|]. split; [exact wf_yre_d|].
   split; [apply comp_dep; [apply wf_yre_d | apply wf_yre_d | left; reflexivity]|].
   split; [apply comp_dep; [apply wf_yre_d | apply wf_yre_d | left; reflexivity]|].
-  split; [|split; assumption].
+  split; [|split; [assumption | split; [exact Hval | rewrite Hval; exact H1]]].
   unfold budget. change cplx_opts with (default_opts 0 None None true). rewrite Eg.
   cbn [bind default_opts o_trim o_key o_rev o_max sort_rows cut_rows].
-  rewrite trim_zero_all by (intros r' [<-|[]]; rewrite Hz; lra). reflexivity.
+  rewrite trim_zero_all by (intros r' [<-|[]]; rewrite Hval; apply ubar_R_nonneg). reflexivity.
 Qed.
 
 (* non-vacuity of the pairing theorem: y = z * x uses z.real, z.imag and x *)
@@ -981,7 +1035,7 @@ Qed.
 Theorem complex_nonvacuous :
   wf_real st_zx yre_f /\ wf_real st_zx yim_f /\
   paired st_zx (keys (N:=RNum) (ext_re RNum yre_f yim_f)) /\
-  exists rows, gather RNum false st_zx [] (@YComplex RNum yre_f yim_f) (default_opts 0 None None true) = Ok rows /\
+  exists rows, gather RNum st_zx [] (@YComplex RNum yre_f yim_f) (default_opts 0 None None true) = Ok rows /\
                map r_uid rows = [UPair (UElem k1) (UElem k2); UElem k3].
 Proof.
   assert (HP : paired st_zx (keys (N:=RNum) (ext_re RNum yre_f yim_f))).
